@@ -26,7 +26,12 @@ def log(*a):
 
 
 def sh(cmd, timeout=3600, cwd=None, env=None):
-    e = dict(os.environ)
+    # the registered checks always work on /repo and /verif: environment variables that would redirect
+    # the translator, cargo or rustc elsewhere are not inherited
+    e = {k: v for k, v in os.environ.items()
+         if not (k.startswith('RS2COQ_') or k in ('RUSTFLAGS', 'CARGO_ENCODED_RUSTFLAGS', 'RUSTC_WRAPPER', 'RUSTC_WORKSPACE_WRAPPER',
+                                                  'RUSTC', 'CARGO_BUILD_RUSTFLAGS', 'CARGO_BUILD_TARGET', 'CARGO_TARGET_DIR',
+                                                  'CARGO_BUILD_RUSTC', 'CARGO_BUILD_RUSTC_WRAPPER', 'RUSTDOCFLAGS', 'COQPATH', 'OCAMLPATH'))}
     e['CARGO_NET_OFFLINE'] = 'true'
     if env:
         e.update(env)
